@@ -171,44 +171,15 @@ def refusals(cx):
     roots = fn.calls('scipy.optimize.root')
     cx.need(len(roots) == 1, INIT + ': expected one root finding call')
     r = roots[0]
-    fdefs = {f.name: f for f in fn.stmts(ast.FunctionDef)}
-    f0 = dotted(r.args[0]) if r.args else dotted(kwarg(r, 'fun'))
-    ok = f0 in fdefs
+    # the function handed to the solver (a nested def / lambda, helper calls applied): (p, W) -> 2p/(p+1)*log10(p) - W
+    f0 = r.args[0] if r.args else kwarg(r, 'fun')
+    ok = f0 is not None
     if ok:
-        wr = fdefs[f0]
-        ps = [a.arg for a in wr.args.args]
-        ret = [s for s in wr.body if isinstance(s, ast.Return)]
-        ok = len(ps) == 2 and len(ret) == 1
-        if ok:
-            # inline the helper W_f if used
-            body = ret[0].value
-            env = {}
-            for name, fd in fdefs.items():
-                if name != f0 and len(fd.args.args) == 1:
-                    rr = [s for s in fd.body if isinstance(s, ast.Return)]
-                    if len(rr) == 1:
-                        env[name] = (fd.args.args[0].arg, rr[0].value)
-
-            class Inl(ast.NodeTransformer):
-                def visit_Call(self, node):
-                    self.generic_visit(node)
-                    d = dotted(node.func)
-                    if d in env and len(node.args) == 1:
-                        par, ex = env[d]
-
-                        class Sub(ast.NodeTransformer):
-                            def visit_Name(self, n2):
-                                return node.args[0] if n2.id == par else n2
-                        import copy as _c
-                        return Sub().visit(_c.deepcopy(ex))
-                    return node
-            import copy as _c
-            body = Inl().visit(_c.deepcopy(body))
-            got = sym.norm(body)
-            want = sym.norm('2*%s/(%s + 1)*np.log10(%s) - %s' % (ps[0], ps[0], ps[0], ps[1]))
-            ok = got == want
-            targ = kwarg(r, 'args')
-            ok = ok and targ is not None and sym.norm(targ) in (('var', 'W'), ('tuple', ('var', 'W')))
+        got = sym.Normalizer(resolver=fn.resolver(r, only_lambdas=True)).n(f0)
+        want = sym.norm('lambda p, W: 2*p/(p + 1)*np.log10(p) - W')
+        ok = got == want
+        targ = kwarg(r, 'args')
+        ok = ok and targ is not None and sym.norm(targ) in (('var', 'W'), ('tuple', ('var', 'W')))
     fn.ob('FORMULA', 'p is the root of 2p*log10(p)/(p+1) - W', ok, r, detail='' if ok else norm_stmt(r), key='p-root')
     x0 = kwarg(r, 'x0', 1)
     ok = x0 is not None and fn.nf(x0, at=r, stop=('W',)) == sym.norm('10**(W/2.)')
